@@ -23,6 +23,7 @@ RULE = (
     "omitted / explicitly empty x reference time given/defaulted x dt spelling; each point = 3 renderings, 3 runs; non-trivial = point where at least one "
     "optional feature (continuous, extra column, IBM variable, subgrid, omitted grid) is on; lattice points distinct by construction"
 )
+RULE += " Beyond the lattice (chosen scenarios, not enumerated): a v1 period of 30 h, a reference time at the epoch, an IBM option with value 0.0."
 ASSUMPTIONS = ["the v1 vocabulary as translated by configure_v1 ('ordinary IMR use')", "runs with diffusion > 0 use one scripted random source for all three spellings"]
 
 S0 = world.tosec("2020-03-01T06:00:00")
